@@ -105,7 +105,7 @@ func main() {
 		return
 	}
 
-	n := r.Pick(300, 8000)
+	n := r.Pick(300, 30000)
 	if *l2Only {
 		n = 0
 	}
@@ -197,7 +197,7 @@ func main() {
 	// L2 part: one child process per scenario.
 	l2Start := time.Now()
 	var l2Evaluated, l2Replied, l2AllowedFailures, l2Rebroadcasts atomic.Int64
-	nL2 := r.Pick(12, 200)
+	nL2 := r.Pick(12, 600)
 	l2.RunScenariosCB(r, nL2, 240*time.Second, c15.L2Scenario, func(res *l2.Result) {
 		l2Evaluated.Add(res.Counters["l2_calls_evaluated"])
 		l2Replied.Add(res.Counters["l2_calls_with_replies"])
